@@ -140,6 +140,15 @@ theorem lockstep (limit : Nat) (ops : List ConnOp) (hs : List (Bytes × Bytes ×
   obtain ⟨h1, h2⟩ := lockstep_of_inv c' hinv' hnone
   exact ⟨c', outs, hrun, h1, h2, same_index_same_field c' hinv' hnone⟩
 
+/-- the same under size-level hypotheses only (see `Props.C01.roundtrip_sizes`) -/
+theorem lockstep_sizes (limit : Nat) (ops : List ConnOp) (hs : List (Bytes × Bytes × Bool)) (huff : Bool)
+    (h : SizesOK (Props.freshDec limit).allowed limit (ops ++ [ConnOp.block hs huff])) :
+    ∃ c' outs, runConn Gen.intCap true ⟨Props.freshEnc, Props.freshDec limit⟩ (ops ++ [ConnOp.block hs huff]) = some (c', outs) ∧
+      absT c'.dec.table = absT c'.enc.table ∧ c'.dec.table.maxsize = c'.enc.table.maxsize ∧
+      ∀ i, resolve c'.enc.table i = resolve c'.dec.table i :=
+  lockstep limit ops hs huff (opsOK_of_sizesOK Gen.intCap Props.cap64 _ limit _ Props.freshEnc Props.freshEnc_ok
+    (by decide) (by simp [Props.freshEnc]) h)
+
 /-- before the repair D3 the contexts could drift apart (sizes 40, 40: no update is ever sent while the
     encoder's maximum is 40) -/
 theorem desync_before_fix : Witness.setTwice = some ([0x40, 0x01, 0x61, 0x01, 0x62], 1, 40) :=
